@@ -32,6 +32,10 @@ impl<'a> GeneratorState<'a> {
         pos: usize,
         high_byte: bool,
     ) -> Result<ExprType, Error> {
+        // When an indexed operand needed Y, the Y of the program is parked in cctmp
+        if self.saved_y && *right == ExprType::Y {
+            return Err(self.compiler_state.syntax_error("Y is used both as an index and as a value in this statement. Please use an intermediate variable", pos));
+        }
         match left {
             ExprType::X => match right {
                 ExprType::Immediate(i) => {
